@@ -44,6 +44,8 @@ struct _map {
 struct _map_itr {
     m_map_t *m;
     map_elem *curr;
+    size_t index;       // position of curr in the circular scan
+    size_t end;         // position at which the scan is over
     bool removed;
 };
 
@@ -54,6 +56,7 @@ static size_t hashmap_hash_string(const char *key);
 static int hashmap_rehash(m_map_t *m);
 static int hashmap_put(m_map_t *m, const char *key, void *value);
 static void clear_elem(m_map_t *m, map_elem *entry);
+static size_t hashmap_first_empty(const m_map_t *m);
 
 /*
  * Find the hashmap entry with the specified key, or an empty slot.
@@ -252,6 +255,20 @@ static void clear_elem(m_map_t *m, map_elem *removed_entry) {
     memset(removed_entry, 0, sizeof(map_elem));
 }
 
+/*
+ * Index of the first empty slot: the load factor guarantees that there is one.
+ * Iterations scan the table circularly starting right after it: this way no
+ * chain of entries wraps around the end of the scan, and removing the current
+ * entry never shifts an already visited entry back in front of the cursor.
+ */
+static size_t hashmap_first_empty(const m_map_t *m) {
+    size_t index = 0;
+    while (index < m->table_size && m->table[index].key) {
+        index++;
+    }
+    return index;
+}
+
 /** Public API **/
 
 /*
@@ -290,17 +307,21 @@ _public_ int m_map_itr_next(m_map_itr_t **itr) {
     M_PARAM_ASSERT(itr && *itr);
     
     m_map_itr_t *i = *itr;
+    const m_map_t *m = i->m;
     if (!i->curr) {
-        /* First time: start from first elem */
-        i->curr = &i->m->table[0];
-    } else {
+        /* First time: start right after the first empty slot */
+        i->index = hashmap_first_empty(m);
+        i->end = i->index + m->table_size;
+        i->index++;
+    } else if (!i->removed) {
         /* Normally: start from subsequent element */
-        i->curr = i->curr + 1 - i->removed;
+        i->index++;
     }
     
     i->removed = false;
     bool found = false;
-    for (; i->curr < &i->m->table[i->m->table_size]; i->curr++) {
+    for (; i->index < i->end; i->index++) {
+        i->curr = &m->table[MAP_SIZE_MOD(m, i->index)];
         if (i->curr->key) {
             found = true;
             break;
@@ -400,7 +421,10 @@ _public_ int m_map_iterate(const m_map_t *m, m_map_cb fn, void *userptr) {
     M_PARAM_ASSERT(fn);
     M_PARAM_ASSERT(m_map_len(m) > 0);
     
-    MAP_FOREACH(m->table, m->table_size, {
+    /* Circular scan of the table, starting right after the first empty slot */
+    const size_t start = hashmap_first_empty(m);
+    for (size_t i = 1; i < m->table_size; i++) {
+        map_elem *entry = &m->table[MAP_SIZE_MOD(m, start + i)];
         if (!entry->key) {
             continue;
         }
@@ -417,12 +441,12 @@ _public_ int m_map_iterate(const m_map_t *m, m_map_cb fn, void *userptr) {
         }
         if (entry->key != key) {
             /* Run this entry again if fn() deleted it */
-            --entry;
+            --i;
         } else if (num_entries != m->length) {
             /* Stop immediately if fn put/removed another entry */
             return -EACCES;
         }
-    });
+    }
     return 0;
 }
 
